@@ -23,6 +23,9 @@ import (
 // transport decides the fate of one client send event.
 func (m *machine) transport(r *simrt.Request) (int, error) {
 	week := r.URL[strings.LastIndex(r.URL, "/")+1:]
+	if m.markerAtSend != nil {
+		m.markerAtSend[r.Seq] = exists(filepath.Join(m.upl, week+".json"))
+	}
 	fate := 0
 	switch m.serverPolicy {
 	case 0:
@@ -483,6 +486,13 @@ func (m *machine) soloTask(name string, fn func()) *simrt.Task {
 func (m *machine) userChangesMode(viaCommands bool) {
 	t := m.t
 	modePath := filepath.Join(m.tele, "mode")
+	if viaCommands && t.Bool(1, 5) {
+		// the command finds a mode file that holds no valid mode (emptied by an
+		// interrupted write, edited by hand): that is not "already the requested mode"
+		odd := []string{"", "lo", "banana 2024-01-01", "enabled", "ON", "local 2024-13-45", "\xff\xfe", "of", "on2024-01-01", "locale"}
+		os.WriteFile(modePath, []byte(odd[t.Draw(len(odd))]), 0666)
+		m.s.Probe("command-over-odd-mode-file")
+	}
 	oldMode, _, oldRaw, oldExists := parseMode(modePath)
 	if !viaCommands && t.Bool(1, 4) {
 		// arbitrary content
